@@ -35,32 +35,85 @@ def load_contracts():
         CONTRACT_MODULES.append(importlib.import_module('contracts.' + name))
 
 
-def _work(args):
-    key, tier, extra = args
+_OBS = []      # (function index, Obligation) -- inherited by the forked discharge workers
+
+
+def _explore(key, tier, extra):
     from . import verify
+    c = R.CONTRACTS[key]
+    saved = list(c.free_requires)
     if extra:
-        c = R.CONTRACTS[key]
-        saved = list(c.free_requires)
         c.free_requires = saved + list(extra)
-        try:
-            r = verify.verify_function(key, tier)
-        finally:
-            c.free_requires = saved
-    else:
-        r = verify.verify_function(key, tier)
-    return dict(key=r.key, status=r.status, reason=r.reason, obligations=r.obligations,
+    try:
+        return verify.verify_function(key, tier, keep_terms=True, discharge=False)
+    finally:
+        c.free_requires = saved
+
+
+def _discharge(i):
+    from . import smt, verify
+    fi, ob, tier = _OBS[i]
+    smt.discharge(ob, tier)
+    return i, verify.obligation_record(ob)
+
+
+def _explore_proc(args):
+    """Exploration + discharge of one function inside a worker (used when there are many functions)."""
+    key, tier, extra = args
+    from . import verify, smt
+    r = _explore(key, tier, extra)
+    recs = []
+    for ob in (r.raw or []):
+        smt.discharge(ob, tier)
+        recs.append(verify.obligation_record(ob))
+    return _pack(r, recs)
+
+
+def _pack(r, recs):
+    return dict(key=r.key, status=r.status, reason=r.reason, obligations=recs,
                 paths=r.paths, exits=r.exits, sha=r.sha, file=r.file, lineno=r.lineno,
                 time=round(r.time, 3))
 
 
 def run_functions(keys, tier, extra=None, procs=None):
-    jobs = [(k, tier, (extra or {}).get(k)) for k in keys]
-    procs = procs or min(16, max(1, len(jobs)))
-    if procs == 1 or len(jobs) == 1:
-        return [_work(j) for j in jobs]
-    ctx = multiprocessing.get_context('fork')
-    with ctx.Pool(procs, maxtasksperchild=1) as pool:
-        return pool.map(_work, jobs, chunksize=1)
+    """Explore every function (sequential, seconds), then discharge all obligations of all
+    functions on a pool of forked workers that inherit the z3 terms: one query per obligation."""
+    global _OBS
+    extra = extra or {}
+    results = []
+    _OBS = []
+    for fi, k in enumerate(keys):
+        r = _explore(k, tier, extra.get(k))
+        results.append(r)
+        for ob in (r.raw or []):
+            _OBS.append((fi, ob, tier))
+    recs = [[] for _ in keys]
+    procs = procs or 16
+    todo = [i for i, (fi, ob, t) in enumerate(_OBS) if ob.status != 'trivial']
+    done = {}
+    for i, (fi, ob, t) in enumerate(_OBS):
+        if ob.status == 'trivial':
+            ob.backend = 'simplifier'
+    if todo:
+        if procs == 1 or len(todo) < 3:
+            for i in todo:
+                done[i] = _discharge(i)[1]
+        else:
+            ctx = multiprocessing.get_context('fork')
+            with ctx.Pool(min(procs, len(todo))) as pool:
+                for i, rec in pool.imap_unordered(_discharge, todo, chunksize=1):
+                    done[i] = rec
+    from . import verify
+    for i, (fi, ob, t) in enumerate(_OBS):
+        recs[fi].append(done[i] if i in done else verify.obligation_record(ob))
+    out = []
+    for r, rc in zip(results, recs):
+        if r.status == 'ok' and getattr(r, 'feasible_exits', 1) == 0 and r.exits.get('cut', 0) == 0:
+            r.status = 'error'
+            r.reason = 'vacuity: no feasible exit path (contradictory requires or assumptions)'
+        out.append(_pack(r, rc))
+    _OBS = []
+    return out
 
 
 def load_known():
